@@ -118,6 +118,10 @@ def check_small(ctx, carrier, rows, start, mode, tree=None):
         x = ident(n)
         ret = _Tok("l", x)
         log.append(("L", x, args if not isinstance(args, list) else list(args), ret))
+        if isinstance(args, list):
+            # the property quantifies over ALL callbacks: this one scribbles on the list it was handed, which must
+            # not leak into what any other call receives (each call gets its own list of its children's values)
+            args.append(_Tok("scribble", x))
         return ret
 
     V = lambda clause, obs, exp: ctx.violation(carrier, clause, spec, obs, exp, spec)  # noqa: E731
